@@ -2,6 +2,7 @@ import json, sys, glob
 import jsonschema
 jsonschema.validate(json.load(open('/verif/MANIFEST.json')), json.load(open('/root/.vp/MANIFEST.schema.json')))
 es = json.load(open('/root/.vp/EVIDENCE.schema.json'))
-for f in sorted(glob.glob('/verif/evidence/*.json')):
+claimed = [c['evidence_file'] for c in json.load(open('/verif/MANIFEST.json'))['checks']]
+for f in sorted(claimed):
     jsonschema.validate(json.load(open(f)), es)
-print('valid', len(glob.glob('/verif/evidence/*.json')), 'evidence files')
+print('valid', len(claimed), 'claimed evidence files')
